@@ -228,6 +228,36 @@ def c02d(ctx):
             c = ctx.touch(cl[0])
             if not c.calls_to(r"tiny_lfu::VacantEntry::<.*>::insert$") or not c.calls_to(r"core::clone::Clone::clone$"):
                 ctx.fail(o, Site(c, 0, 0), "the entry closure must insert a clone in the Vacant arm and clone the existing lock in the Occupied arm")
+            # per arm: what the closure RETURNS.  Occupied: the lock that is already in the table (never the fresh one);
+            # Vacant: the very instance it inserted.
+            def ret_origins(edge):
+                sb, tb = edge
+                out = []
+                for bi in c.reachable([tb], removed_nodes=[sb]):
+                    if not (bi == tb or c.edge_dominates((sb, tb), bi)):
+                        continue
+                    blk = c.blocks[bi]
+                    for si, st in enumerate(blk["stmts"]):
+                        if st["k"] == "assign" and st["lhs"][0] == 0 and not st["lhs"][1] and st["rv"]["k"] == "use":
+                            out += list(df.origins_of_operand(c, st["rv"]["op"]))
+                    t = blk["term"]
+                    if t["k"] == "call" and t.get("dest") and t["dest"][0] == 0 and not t["dest"][1]:
+                        for a_ in t["args"][:1]:
+                            out += list(df.origins_of_operand(c, a_))
+                return out
+            for sb, tb, v, cd in df.variant_edges(c, "tiny_lfu::Entry"):
+                os_ = ret_origins((sb, tb))
+                if v == 1:
+                    # (OccupiedEntry::get is transparent for the def-use walk: the origin is the entry argument `_2` itself)
+                    if not os_ or not all((x.kind == "call" and re.search(r"OccupiedEntry::<.*>::get(_mut)?$", x.callee() or "")) or
+                                          (x.kind == "param" and str(x.info).split(".")[0] == "_2") for x in os_):
+                        ctx.fail(o, Site(c, tb, 0), "in the Occupied arm get_lock_instance returns something other than a clone of the lock already in the table: two tasks asking "
+                                 "for the lock of one query get different locks")
+                elif v == 0:
+                    ins = c.calls_to(r"tiny_lfu::VacantEntry::<.*>::insert$")
+                    io = {x.key() for i_ in ins for x in df.origins_of_operand(c, i_.node["args"][1])}
+                    if not os_ or not ({x.key() for x in os_} & io):
+                        ctx.fail(o, Site(c, tb, 0), "in the Vacant arm get_lock_instance returns an instance other than the one it inserted")
     for fn, which in (("QueryLockManager::acquire_exclusive_lock", "write_owned"), ("QueryLockManager::acquire_shared_lock", "read_owned")):
         o = ctx.ob("C02.d", "%s/locks-table-instance" % fn, "K5", "the guard handed out locks the instance obtained from the table")
         b = ctx.touch(prog.coroutine_of(fn))
